@@ -6,6 +6,7 @@
     X(size_t, g_body_n) X(const unsigned char *, g_body_ptr) X(size_t, g_body_len) X(int, g_body_rc) \
     X(size_t, g_txstate_n) X(int, g_txstate_which) X(int, g_txstate_rc) \
     X(size_t, g_state_calls) X(size_t, g_hook_n) X(int, g_in_gap) \
+    X(size_t, g_clear_n) X(size_t, g_consol_n) X(size_t, g_create_n) \
     X(const unsigned char *, g_hook_ptr) X(size_t, g_hook_len) X(const void *, g_hook_tx) X(int, g_hook_rc) X(int, g_hook_last)
 /* largest stream offset / message length for which the int64 counters provably do not wrap in one call */
 #define OFFMAX ((int64_t) 1 << 62)
@@ -31,7 +32,12 @@
     (c)->out_stream_offset >= 0)
 /* coarse frame of the shared state contract: the parser object itself (fields that must survive are re-stated in RQ_COMMON_POST) */
 #define RQ_STATE_FRAME(c) g_state_calls, __CPROVER_object_whole(c)
+#define RS_STATE_FRAME(c) g_state_calls, __CPROVER_object_whole(c)
+#define RES_TX_INV(c) (((c)->out_state != htp_connp_RES_IDLE) ==> (c)->out_tx != NULL)
 #define REQ_TX_INV(c) (((c)->in_state != htp_connp_REQ_IDLE && (c)->in_state != htp_connp_REQ_IGNORE_DATA_AFTER_HTTP_0_9) ==> (c)->in_tx != NULL)
+#ifndef LINE_CAP
+#define LINE_CAP 256
+#endif
 #ifndef CHUNK_CAP
 #define CHUNK_CAP 4096
 #endif
